@@ -397,7 +397,10 @@ def run_all(tier):
         extra['vacuity'] = vsum
         if extra.get('tool'):
             tool += extra['tool']
-    extra['skipped'] = sorted(skip)
+    extra['skipped'] = sorted(set(skip) | set(G.anchor_skipped))
+    extra['skipped_reasons'] = dict(G.anchor_skipped)
+    for f, why in sorted(G.anchor_skipped.items()):
+        print('NOTE: leaving out %s (%s)' % (f, why))
     return G, Gc, res, resc, failed, tool, fn_status, canary_bad, extra
 
 
